@@ -138,6 +138,36 @@ MoveC(to, from) ==
     /\ m' = [m EXCEPT ![to] = m[from], ![from] = EmptyMap]
     /\ it' = NoIter
 
+(* aws_hash_table_eq(a, b, value_eq): "Compares two hash tables for equality ... values will be   *)
+(* compared using the comparator passed into this function.  The key hash function does not need *)
+(* to be equivalent between the two hash tables."  Equal = the same key classes, and under every *)
+(* one of them two values the comparator calls equal.  The comparator is an equivalence on       *)
+(* values, given here by the class it puts a value in (kind "id": every value its own class,     *)
+(* "m3": value id modulo 3, "all": one class); NULL (0) is a class of its own under every kind,  *)
+(* so whether the library consults the comparator for NULL or for identical pointers is open.    *)
+(* cmp = the pairs the comparator was shown: only ever the two values stored under one key.      *)
+(* Non-mutating: nothing changes, a user iterator stays usable.  a = b is allowed.               *)
+VCls(kind, v) == IF v = 0 THEN 0 ELSE IF kind = "id" THEN v ELSE IF kind = "m3" THEN 1 + (v % 3) ELSE 1
+MapsEqual(a, b, kind) == /\ Present(a) = Present(b)
+                         /\ \A c \in Present(a) : VCls(kind, m[a][c].v) = VCls(kind, m[b][c].v)
+EqC(a, b, kind, res, cmp) ==
+    /\ live[a] /\ live[b] /\ kind \in {"id", "m3", "all"}
+    /\ res <=> MapsEqual(a, b, kind)
+    /\ \A i \in DOMAIN cmp : \E c \in Present(a) \cap Present(b) :
+           \/ cmp[i][1] = m[a][c].v /\ cmp[i][2] = m[b][c].v
+           \/ cmp[i][1] = m[b][c].v /\ cmp[i][2] = m[a][c].v
+    /\ UNCHANGED corevars
+
+(* Storage growth as a caller can observe it (allocator traffic during put / create).  `room` is  *)
+(* a number of entries the table certainly has room for.  A call that adds no entry, or adds one *)
+(* while the table holds fewer than `room`, has no reason to grow the table ("Raises             *)
+(* AWS_ERROR_OOM if hash table expansion was required").  HeldBefore: the most entries the table *)
+(* has held since aws_hash_table_init -- storage is only given back by clean_up, in particular   *)
+(* clear keeps it.  AskedFor: the `size` given to aws_hash_table_init ("initial capacity for     *)
+(* 'size' elements without resizing").  Which of the two a check relies on is the caller's       *)
+(* choice (HashMapTrace).                                                                        *)
+NoGrowthNeeded(t, created, room) == ~created \/ Count(t) < room
+
 -----------------------------------------------------------------------------
 (* Iteration.  Order is free; `todo` is what a complete iteration still has to show.  A full     *)
 (* iteration therefore shows every entry that was present at begin exactly once, and "done" is   *)
@@ -203,6 +233,7 @@ Clear(t, dks, dvs) == ClearC(t, dks, dvs) /\ Account(dks, dvs)
 CleanUp(t, dks, dvs) == CleanUpC(t, dks, dvs) /\ Account(dks, dvs)
 Swap(a, b) == SwapC(a, b) /\ UNCHANGED <<kd, vd>>
 Move(to, from) == MoveC(to, from) /\ UNCHANGED <<kd, vd>>
+Eq(a, b, kind, res, cmp) == EqC(a, b, kind, res, cmp) /\ UNCHANGED <<kd, vd>>
 IterBegin(t, done, ek, ev) == IterBeginC(t, done, ek, ev) /\ UNCHANGED <<kd, vd>>
 IterNext(done, ek, ev) == IterNextC(done, ek, ev) /\ UNCHANGED <<kd, vd>>
 IterDelete(destroy, dks, dvs) == IterDeleteC(destroy, dks, dvs) /\ Account(dks, dvs)
@@ -223,6 +254,13 @@ WellFormed == \A t \in Tabs : \A c \in Present(t) : ValidPtr(c, m[t][c].p)
 StoredKeyObjs == UNION {{KeyOf(t, c) : c \in Present(t)} : t \in Tabs}
 StoredVals == UNION {{m[t][c].v : c \in Present(t)} : t \in Tabs}
 (* 0 is NULL (the NULL key / the NULL value a created element starts with), not an object *)
+(* aws_hash_table_eq is an equivalence on tables whatever the comparator (reflexive, symmetric),  *)
+(* and a coarser comparator equates more; HashMapMC asserts this wherever it compares            *)
+EqLaws(a, b, kind) ==
+    /\ MapsEqual(a, a, kind)
+    /\ MapsEqual(a, b, kind) <=> MapsEqual(b, a, kind)
+    /\ (kind = "id" /\ MapsEqual(a, b, "id")) => MapsEqual(a, b, "m3")
+    /\ (kind = "m3" /\ MapsEqual(a, b, "m3")) => MapsEqual(a, b, "all")
 AtMostOnce == (\A k \in DOMAIN kd \ {0} : kd[k] = 1) /\ (\A v \in DOMAIN vd \ {0} : vd[v] = 1)
 NoDangling == (StoredKeyObjs \cap (DOMAIN kd \ {0}) = {}) /\ (StoredVals \cap (DOMAIN vd \ {0}) = {})
 =============================================================================
